@@ -43,6 +43,10 @@ def build_catalogue(seed=0):
                 cat.append({"fn": "classify", "n": n, "strings": strs})
                 # the GF(2) helpers applied to the arrays a caller's objects own (cut ranks, kernels, validity)
                 cat.append({"fn": "f2_on_stabilizer", "n": n, "strings": strs, "format": "matrices+phases"})
+        # circuits without any two-qubit gate (product states; "nothing to compress") and the empty circuit
+        if name in ("all", "linear", "star"):
+            loc = [[rng.choice(["h", "s", "sdg", "x", "z", "y"]), [rng.randrange(n)]] for _ in range(rng.randrange(0, 2 * n))]
+            cat.append({"fn": "compress", "n": n, "name": name, "ops": loc if name != "star" else [], "meta": None})
         # graph input (aliasing of the graph's adjacency matrix) and measurement circuits
         gid = rng.randrange(1 << (n * (n - 1) // 2))
         cat.append({"fn": "prep_graph", "n": n, "name": name, "gid": gid})
